@@ -804,7 +804,9 @@ func (p *Process) setStateAndRun(state string, runnable func() error) error {
 	// the critical section that launches the command, closes the window in which a process
 	// that was just stopped (while pending or waiting to restart) got launched. The context
 	// belongs to this instance; the status is shared with a later instance of the process.
-	if p.procRunCtx.Err() != nil || p.superseded.Load() {
+	// isStopped is raised for every process as soon as a project shutdown begins, long
+	// before the shutdown gets round to stopping this one.
+	if p.procRunCtx.Err() != nil || p.superseded.Load() || p.isStopped.Load() {
 		return errProcessStopped
 	}
 	p.launched = true
